@@ -191,6 +191,12 @@ func (x *Ex) genFuncsMore(body *LeanFile) {
 		{"internal/stringutil", "", "EqualsIgnoreCase"},
 		{"internal/stringutil", "", "HasPrefixIgnoreCase"},
 	})
+	// the title heuristic (Model/Title.lean)
+	x.bodyGroup(body, "titleBodies", []string{"C15"}, [][3]string{
+		{"internal/extractor", "", "getDocumentTitle"},
+		{"internal/extractor", "ContentExtractor", "ExtractTitle"},
+		{"internal/extractor", "ContentExtractor", "ensureTitleInitialized"},
+	})
 	// reference resolution (Model/AbsURL.lean)
 	x.bodyGroup(body, "urlBodies", []string{"C06", "C16"}, [][3]string{
 		{"internal/stringutil", "", "CreateAbsoluteURL"},
